@@ -28,11 +28,15 @@ def cases(ctx):
     thorough = ctx.tier == 'thorough'
     rng = ctx.rng
     for i in range(260 if not thorough else 3000):
-        P = gen.random_pda(rng, markers=True)
+        P = gen.ambiguous_stack_pda(rng) if i % 25 == 4 else gen.random_pda(rng, markers=True)
         if not thorough or ctx.mine(i):
             yield {'P': P, 'cfg': False}
-    for i in range(40 if not thorough else 500):
+    for i in range(60 if not thorough else 600):
         P = gen.random_pda(rng, nmax=2, tmax=3)
+        if i % 3 == 2:       # state names with '_' (names of grammar variables are built from pairs of state names)
+            ren = {q: n for q, n in zip(P['Q'], ['p', 'p_p'])}
+            P = dict(P, Q=[ren[q] for q in P['Q']], q0=ren[P['q0']], F=[ren[q] for q in P['F']],
+                     delta=[[ren[p], a, u, [[ren[q], v] for q, v in T]] for p, a, u, T in P['delta']])
         if not thorough or ctx.mine(i):
             yield {'P': P, 'cfg': True}
 
